@@ -351,7 +351,8 @@ def gen_poly_case(rng, malformed=False):
             "degrees_kw": not (model == "polynomial" and deg == 3 and rng.random() < 0.5),
             "xs": xs, "ys": ys, "xerr": None if rng.random() < 0.7 else gen_err_pattern(rng, n),
             "yerr": gen_err_pattern(rng, n), "xrange": None, "mode": rng.choice(MODES)}
-    if use_range:
+    if use_range and not large:
+        # (no x-range on large-|x| data: a narrow window far from the origin measures numpy.polyfit's own accuracy)
         case["xrange"] = gen_xrange(rng, xs, npar)
     elif rng.random() < 0.1:
         case["xrange"] = rng.choice(["empty_tuple", "empty_list"])
@@ -1027,7 +1028,10 @@ def gen_history(rng, curve=None):
         if rng.random() < 0.5:
             other = dict(reqs[0])
             r = rng.random()
-            if r < 0.5 or curve:
+            if base.get("large_x"):
+                other.update(model="polynomial", deg=3 if base["deg"] != 3 else 4, degrees_kw=True)
+                other.pop("parnames", None)
+            elif r < 0.5 or curve:
                 other["xrange"] = gen_xrange(rng, base["xs"], npar + 1 if curve else npar) if base["xrange"] is None else None
             elif r < 0.75:
                 other.update(model="polynomial", deg=(base["deg"] % 3) + 1, degrees_kw=True)
